@@ -233,3 +233,13 @@ Proof.
   apply (session_spec (list R) slot_answers (validate_metric ROps) metrics_slot_query metrics_slot_store
            (fun _ => r0) (metrics_answers_sound r0) validate_metric_idem cs None I).
 Qed.
+
+(* ------------------------------------------------------------ functions.normalize *)
+(* the translated functions.normalize (keep_zeros=False, config.EPSILON) is the hand model
+   Model.normalize used by the normal kernels, entry_normals and C11_normalize_rotation *)
+Lemma normalize_translated_is_model (a : v3 R) : normalize_t ROps false a = normalize ROps a.
+Proof.
+  unfold normalize_t, normalize, config_epsilon, epsilon.
+  cbv zeta. try reflexivity.
+  all: repeat match goal with |- context [if ?b then _ else _] => destruct b eqn:? end; reflexivity.
+Qed.
